@@ -1,5 +1,6 @@
 import Driver.Machine
 import Driver.Sut.VClock
+import Driver.Sut.Lattice
 /-! Line-protocol driver: reads a command script on stdin, prints the model's canonical observation
 (and, after ` | `, the value of the specification functions) for every command. -/
 open Driver
@@ -7,6 +8,12 @@ open Driver
 def newCase (ty : String) (n : Nat) : Option Machine :=
   match ty with
   | "vclock" => some (Machine.mk' vclockOps n)
+  | "gcounter" => some (Machine.mk' gcounterOps n)
+  | "pncounter" => some (Machine.mk' pncounterOps n)
+  | "gset" => some (Machine.mk' gsetOps n)
+  | "lwwreg" => some (Machine.mk' lwwOps n)
+  | "maxreg" => some (Machine.mk' maxregOps n)
+  | "minreg" => some (Machine.mk' minregOps n)
   | _ => none
 
 def pureCmd (f : String) (args : List String) : String :=
